@@ -53,6 +53,12 @@ def _scratch_root():
 def main(argv=None):
     _setup_path()
     _scratch_root()
+    try:
+        import faulthandler
+        import signal
+        faulthandler.register(signal.SIGUSR1, all_threads=True)     # `kill -USR1 <pid>` shows where a slow check is
+    except Exception:
+        pass
     ap = argparse.ArgumentParser(prog="check")
     ap.add_argument("prop")
     ap.add_argument("--tier", default=os.environ.get("VERIF_TIER", "quick"), choices=["quick", "thorough"])
@@ -62,6 +68,7 @@ def main(argv=None):
     ap.add_argument("--max-seconds", type=int)
     ap.add_argument("--digests", help="internal: print trace digests of the given run indices")
     ap.add_argument("--isolate", action="store_true", help="internal: execute every --digests index in its own forked child (pristine process state)")
+    ap.add_argument("--scan", help="internal: execute the given run indices one forked child each and print their results / crashes")
     ap.add_argument("--show", type=int, help="run one seeded run index verbosely")
     ap.add_argument("--xproc-replay", help="internal: print the interpreter-independent facts (XPROC) of a replay file's run")
     args = ap.parse_args(argv)
@@ -72,6 +79,9 @@ def main(argv=None):
 
     if args.replay:
         return engine.replay_file(prop, args.replay)
+    if args.scan:
+        os.environ["TOASTYSIM_TIER"] = args.tier
+        return engine.scan(prop, seed, [int(x) for x in args.scan.split(",") if x])
     if args.xproc_replay:
         import json
         engine.setup_process()
